@@ -238,12 +238,13 @@ def canon(expr):
     return ast.fix_missing_locations(expr)
 
 
-def norm_expr(expr, env=None, tree=None) -> str:
-    """canonical text of an expression: helpers inlined, locals substituted, spellings canonicalised"""
+def norm_expr(expr, env=None, tree=None, depth=6) -> str:
+    """canonical text of an expression: helpers inlined, locals substituted, spellings canonicalised
+    (`depth=1` when the expressions of `env` are already resolved, e.g. re-assigned names on a path)"""
     if tree is not None:
         expr = inline_helpers(expr, tree)
     if env:
-        expr = subst(expr, env)
+        expr = subst(expr, env, depth)
         if tree is not None:
             expr = inline_helpers(expr, tree)
     return ast.unparse(canon(expr))
@@ -262,22 +263,22 @@ def decision_tree(stmts, tree=None, env=None, ignore=lambda st: False) -> list[s
     leaves: list[str] = []
 
     def fmt(path, what):
-        return ("when " + " and ".join(path) + ": " if path else "") + what
+        return ("when " + " and ".join(f"({c})" if " or " in c else c for c in path) + ": " if path else "") + what
 
     def walk(sts, path, env):
         sts = [s for s in sts if not (isinstance(s, ast.Expr) and isinstance(s.value, ast.Constant)) and not ignore(s)]
         for i, st in enumerate(sts):
             rest = sts[i + 1:]
             if isinstance(st, ast.Return):
-                leaves.append(fmt(path, "return " + (norm_expr(st.value, env, tree) if st.value is not None else "None")))
+                leaves.append(fmt(path, "return " + (norm_expr(st.value, env, tree, 1) if st.value is not None else "None")))
                 return
             if isinstance(st, ast.Raise):
                 e = st.exc.func if isinstance(st.exc, ast.Call) else st.exc
                 leaves.append(fmt(path, "raise " + (ast.unparse(e) if e is not None else "")))
                 return
             if isinstance(st, ast.If):
-                c = norm_expr(st.test, env, tree)
-                nc = norm_expr(negate(st.test), env, tree)
+                c = norm_expr(st.test, env, tree, 1)
+                nc = norm_expr(negate(st.test), env, tree, 1)
                 # both branches continue with the rest of the statements (a guarded block == if/else with empty else)
                 walk(st.body + ([] if _terminates(st.body) else rest), path + [c], dict(env))
                 walk(st.orelse + ([] if _terminates(st.orelse) else rest), path + [nc], dict(env))
@@ -286,13 +287,13 @@ def decision_tree(stmts, tree=None, env=None, ignore=lambda st: False) -> list[s
                 continue
             if isinstance(st, ast.Assign) and len(st.targets) == 1 and isinstance(st.targets[0], ast.Name):
                 # a local: remembered, substituted where it is used (its last value on this path)
-                env[st.targets[0].id] = subst(st.value, env)
+                env[st.targets[0].id] = subst(st.value, env, 1)
                 continue
             if isinstance(st, ast.Expr):
-                leaves.append(fmt(path, "do " + norm_expr(st.value, env, tree)))
+                leaves.append(fmt(path, "do " + norm_expr(st.value, env, tree, 1)))
                 continue
             if isinstance(st, ast.Assign) and len(st.targets) == 1 and isinstance(st.targets[0], (ast.Attribute, ast.Subscript)):
-                leaves.append(fmt(path, f"do {norm_expr(st.targets[0], env, tree)}={norm_expr(st.value, env, tree)}"))
+                leaves.append(fmt(path, f"do {norm_expr(st.targets[0], env, tree, 1)}={norm_expr(st.value, env, tree, 1)}"))
                 continue
             raise Untranslatable(f"statement not understood in a decision tree: {ast.unparse(st)[:60]}")
     walk(list(stmts), [], env)
